@@ -569,7 +569,51 @@ class Body:
     # variant index of the usual two-variant enums (discriminant values in switch terminators)
     _VARIDX = {'Ok': 0, 'Err': 1, 'None': 0, 'Some': 1, 'Continue': 0, 'Break': 1, 'Ready': 0, 'Pending': 1}
 
-    def reachable_tracking(self, start_nodes, avoid=None, limit=40000):
+    def _tracking_relevant(self):
+        """locals whose variant can decide a later branch: operands of `discriminant(..)` / `Try::branch(..)` and, backwards,
+        what they are copies of (plain moves, the Ready(..) wrapper of a spliced async helper and its payload projection).
+        Facts about any other local (the many Option / Result temporaries of logging macros) are not kept: they only multiply
+        the states."""
+        if getattr(self, '_trk_rel', None) is not None:
+            return self._trk_rel
+        rel = set()
+        for blk in self.blocks:
+            for st in blk['s']:
+                r = st['r']
+                if r['k'] == 'disc' and len(r['p']) == 1:
+                    rel.add(r['p'][0])
+                    if len(st['d']) == 1:
+                        rel.add(st['d'][0])
+            t = blk['t']
+            if t['k'] == 'call':
+                fn = t.get('f', {})
+                name = fn.get('r') or fn.get('fn') or ''
+                if name.endswith('Try>::branch') or fn.get('fn', '').endswith('Try::branch'):
+                    a0 = t['args'][0] if t.get('args') else None
+                    if a0 is not None and 'p' in a0 and len(a0['p']) == 1:
+                        rel.add(a0['p'][0])
+                    if t.get('d') and len(t['d']) == 1:
+                        rel.add(t['d'][0])
+        changed = True
+        while changed:
+            changed = False
+            for blk in self.blocks:
+                for st in blk['s']:
+                    d, r = st['d'], st['r']
+                    if len(d) != 1 or d[0] not in rel:
+                        continue
+                    src = None
+                    if r['k'] == 'use' and 'p' in r['o']:
+                        src = r['o']['p'][0]
+                    elif r['k'] == 'agg' and r.get('var') == 'Ready' and r.get('ops') and 'p' in r['ops'][0]:
+                        src = r['ops'][0]['p'][0]
+                    if src is not None and src not in rel:
+                        rel.add(src)
+                        changed = True
+        self._trk_rel = rel
+        return rel
+
+    def reachable_tracking(self, start_nodes, avoid=None, limit=40000, parents=None):
         """like reachable_from, but path-sensitive in one respect: when a path assigns a local a known enum variant
         (`x = Err(..)`, then copies of it, `Try::branch(x)`, `discriminant(x)`), a later switch on that discriminant follows
         only the matching edge. This is what keeps the returns of a spliced helper apart: its `Err` return does not reach the
@@ -579,11 +623,17 @@ class Body:
         nblocks = len(self.blocks)
         seen_nodes = set()
         seen_states = set()
+        rel = self._tracking_relevant()
         q = []
         for s in start_nodes:
             if s not in avoid:
                 q.append((s, ()))
         budget = limit
+        node = None
+
+        def _par(y):
+            if parents is not None and y not in parents:
+                parents[y] = node
         while q:
             node, facts = q.pop()
             if (node, facts) in seen_states:
@@ -598,6 +648,7 @@ class Body:
                 for y in succ[node]:
                     if y not in avoid:
                         q.append((y, facts))
+                        _par(y)
                 continue
             blk = self.blocks[node]
             f = dict(facts)
@@ -627,7 +678,10 @@ class Body:
                 elif r['k'] == 'use' and 'p' in r['o'] and len(r['o']['p']) == 1 and r['o']['p'][0] in f:
                     f[l] = f[r['o']['p'][0]]
                 elif r['k'] == 'disc' and len(r['p']) == 1 and r['p'][0] in f:
-                    f[l] = ('d', f[r['p'][0]])
+                    v_ = f[r['p'][0]]
+                    f[l] = ('d', 0 if isinstance(v_, tuple) and v_[0] == 'rdy' else v_)
+            for l_ in [x for x in f if x not in rel]:
+                del f[l_]
             t = blk['t']
             k = t['k']
             if k == 'call':
@@ -654,6 +708,7 @@ class Body:
                                 f[d[0]] = 0 if src_var == 1 else 1
                 if t.get('t') is not None and t['t'] not in avoid:
                     q.append((t['t'], tuple(sorted(f.items(), key=lambda kv: kv[0]))))
+                    _par(t['t'])
                 continue
             nf = tuple(sorted(f.items(), key=lambda kv: kv[0]))
             if k == 'switch':
@@ -673,10 +728,12 @@ class Body:
                         elif int(e[1]) != known:
                             continue
                     q.append((y, nf))
+                    _par(y)
                 continue
             for y in succ[node]:
                 if y not in avoid:
                     q.append((y, nf))
+                    _par(y)
         return seen_nodes
 
     def dominators(self):
@@ -1011,6 +1068,12 @@ class Expr:
                             ag = inner_ag
                     fname = p[1:].rsplit('::', 1)[-1]
                     picked = None
+                    if ag.k == 'downcast' and fname == '0' and ag.b in ('Some', 'Ok') and ag.a.strip().k == 'local':
+                        # (x as Some).0 where x is the result local of a spliced helper with one `Some(v)` return and any number
+                        # of `None` / error returns: v
+                        vv = _ok_value(body, ag.a, depth, var=str(ag.b), only_agg=True)
+                        if vv is not ag.a:
+                            picked = vv
                     if ag.k == 'agg' and isinstance(ag.b, list):
                         if ag.c and fname in ag.c and len(ag.c) == len(ag.b):
                             picked = ag.b[ag.c.index(fname)]
@@ -1147,7 +1210,7 @@ class Expr:
         return None
 
 
-def _ok_value(body, arg, depth):
+def _ok_value(body, arg, depth, var='Ok', only_agg=False):
     """for `x?` where x is a local with several definitions (the result of a spliced helper: one `Ok(v)` and any number of
     error returns): the expression of the single Ok definition, so that the provenance of the success value stays visible.
     Anything else is returned unchanged."""
@@ -1168,9 +1231,9 @@ def _ok_value(body, arg, depth):
                 r = d[3]['r']
                 if r['k'] == 'use' and 'p' in r['o'] and len(r['o']['p']) == 1:
                     srcs.add(r['o']['p'][0])
-                elif r['k'] == 'agg' and r.get('var') == 'Ok':
+                elif r['k'] == 'agg' and r.get('var') == var:
                     oks.append(d)
-                elif r['k'] == 'agg' and r.get('var') == 'Err':
+                elif r['k'] == 'agg' and r.get('var') in ('Err', 'None', 'Ok', 'Some'):
                     pass
                 else:
                     other = True
@@ -1185,6 +1248,8 @@ def _ok_value(body, arg, depth):
             # `Ok(v)?` is v
             r = oks[0][3]['r']
             return Expr.of_operand(body, r['ops'][0], max(depth - 1, 8)) if r.get('ops') else arg
+        if only_agg and not (len(srcs) == 1 and not oks and not calls):
+            return arg
         if len(calls) == 1 and not srcs and not oks:
             cs = CallSite(body, calls[0][1], calls[0][3])
             inner = Expr('call', cs.callee, [Expr.of_operand(body, x, max(depth - 1, 8)) for x in cs.args], cs)
